@@ -378,6 +378,7 @@ func lexAll(src []byte) []tok {
 	for i := 0; i <= len(src)+1; i++ {
 		tt, data := l.Next()
 		twin.Step()
+		gen.Extend(data)
 		_ = l.Err() // polled after every call: reading the error state must not disturb the lexer
 		if tt == css.ErrorToken {
 			break
